@@ -194,12 +194,16 @@ func runC10(c *Ctx) {
 	c10Reversal(c, ext)
 }
 
-func c10Reversal(c *Ctx, ext string) {
+func c10Reversal(c *Ctx, ext string) { scmpReversal(c, ext, "R1-reversal") }
+
+// scmpReversal is registered under C10 (the reply travels back) and under C22 (the
+// replying router is the egress router of the reversed path: it owes the
+// accumulator update of ITS hop on the segment the reply leaves on).
+func scmpReversal(c *Ctx, ext, rule string) {
 	v := c.View(spT + ".prepareSCMP")
 	if v == nil {
 		return
 	}
-	rule := "R1-reversal"
 	fn := v.Fn
 	e := NewE1(c, fn)
 	// rev := Reverse(ToDecoded(path)).(*scion.Decoded)
